@@ -126,6 +126,7 @@ def run(chk, repo, tier):
                       witness='model.replace(parameters=...) with an invalid covariance block keeps it')
     run_more(chk, repo, mc)
     run_v6(chk, repo)
+    run_v7_v9(chk, repo)
 
 
 def run_more(chk, repo, mc):
@@ -239,3 +240,89 @@ def run_v6(chk, repo):
                                       'collapses to a single variable and the other kept variable vanishes')
     if n == 0:
         raise AnalysisError('V6: count of remaining variables not found in unjoin')
+
+
+def run_v7_v9(chk, repo):
+    """V7: the repair of the covariance blocks visits every block; V8: the cursor into the descaled theta vector counts thetas
+    only; V9: names and matrix of a joined distribution come from the same computation"""
+    from rules.C07 import _body_paths
+    rv = repo.cls('pharmpy.model.random_variables.RandomVariables')
+    V7 = chk.rule('V7', 'nearest_valid_parameters: the loop over the distributions has no early exit (a valid block does not '
+                        'end the repair of the later ones)', floor=1)
+    nv = rv.methods.get('nearest_valid_parameters')
+    if nv is None:
+        raise AnalysisError('nearest_valid_parameters not found')
+    loops = [L for L in walk_no_nested(nv.node) if isinstance(L, ast.For) and '_dists' in unparse(L.iter)]
+    if not loops:
+        raise AnalysisError('V7: loop over the distributions not found in nearest_valid_parameters')
+    for L in loops:
+        def own(x, L=L):
+            # break / return that leaves THIS loop (not one of an inner loop)
+            for inner in [y for y in ast.walk(L) if isinstance(y, (ast.For, ast.While)) and y is not L]:
+                if any(z is x for z in ast.walk(inner)) and isinstance(x, ast.Break):
+                    return False
+            return True
+        exits = [x for x in ast.walk(L) if isinstance(x, (ast.Break, ast.Return)) and own(x)]
+        chk.instance(V7, f'nearest_valid_parameters: `for {unparse(L.target)} in {unparse(L.iter)}` early exits: {len(exits)}')
+        for x in exits:
+            chk.violation(V7, rv.module.rel, nv.qualname, f'{type(x).__name__.lower()} in the loop over the distributions',
+                          'the repair stops at the first block that needs none: an invalid block after a valid one keeps its '
+                          'indefinite initial estimates', line=x.lineno,
+                          witness='two joint blocks, the first positive definite, the second not: Model.create keeps the '
+                                  'invalid estimates')
+    V8 = chk.rule('V8', 'calculate_parameters_from_ucp: the index into the descaled theta vector advances once per theta read '
+                        '(it is not the position among all parameters)', floor=1)
+    em = repo.module('pharmpy.modeling.estimation')
+    f = em.functions.get('calculate_parameters_from_ucp')
+    if f is None:
+        raise AnalysisError('calculate_parameters_from_ucp not found')
+    n8 = 0
+    for L in [x for x in walk_no_nested(f.node) if isinstance(x, ast.For)]:
+        reads = [s_ for s_ in ast.walk(L) if isinstance(s_, ast.Subscript) and isinstance(s_.value, ast.Name)
+                 and s_.value.id.startswith('descaled') and isinstance(s_.slice, ast.Name)]
+        if not reads:
+            continue
+        n8 += 1
+        idx = reads[0].slice.id
+        from_enum = idx in {x.id for x in ast.walk(L.target) if isinstance(x, ast.Name)}
+        incs = [a for a in ast.walk(L) if isinstance(a, ast.AugAssign) and isinstance(a.target, ast.Name) and a.target.id == idx]
+        read_stmts = [s_ for s_ in ast.walk(L) if isinstance(s_, ast.stmt) and not isinstance(s_, (ast.If, ast.For))
+                      and any(r is x for r in reads for x in ast.walk(s_))]
+        bad = from_enum or not incs
+        if not bad:
+            for ev, _d in _body_paths(L.body, lambda s_: any(s_ is i for i in incs) or any(s_ is r for r in read_stmts)):
+                ni = sum(1 for e in ev if any(e is i for i in incs))
+                nr = sum(1 for e in ev if any(e is r for r in read_stmts))
+                if ni != nr:
+                    bad = True
+        chk.instance(V8, f'calculate_parameters_from_ucp: `{unparse(reads[0])}` indexed by a counter of the thetas read: {not bad}')
+        if bad:
+            chk.violation(V8, em.rel, f.name, f'{unparse(reads[0])} with `{idx}` '
+                                              f'{"from enumerate over all parameters" if from_enum else "not advanced per theta"}',
+                          'the descaled vector holds the thetas only; indexing it with the position among all estimated '
+                          'parameters is right only while every theta precedes every omega and sigma', line=reads[0].lineno,
+                          witness='a model with a theta appended after the omegas (add_population_parameter): IndexError or '
+                                  'the wrong theta')
+    if n8 == 0:
+        raise AnalysisError('V8: read of the descaled theta vector not found')
+    V9 = chk.rule('V9', 'RandomVariables.join: the names and the covariance matrix of the joined distribution are taken from the '
+                        'same _calc_covariance_matrix() result', floor=1)
+    jn = rv.methods.get('join')
+    if jn is None:
+        raise AnalysisError('RandomVariables.join not found')
+    unpack = [a for a in walk_no_nested(jn.node) if isinstance(a, ast.Assign) and isinstance(a.targets[0], ast.Tuple)
+              and isinstance(a.value, ast.Call) and unparse(a.value.func).endswith('_calc_covariance_matrix')]
+    ctor = [c for c in calls_in(jn.node) if dotted(c.func) == 'JointNormalDistribution' and len(c.args) >= 4]
+    if not unpack or not ctor:
+        raise AnalysisError('V9: _calc_covariance_matrix() unpacking / JointNormalDistribution(...) not found in join')
+    got = [unparse(t) for t in unpack[0].targets[0].elts]          # (means, M, names)
+    for c in ctor:
+        names_arg = {x.id for x in ast.walk(c.args[0]) if isinstance(x, ast.Name)}
+        mat_arg = {x.id for x in ast.walk(c.args[3]) if isinstance(x, ast.Name)}
+        ok = len(got) == 3 and got[2] in names_arg and got[1] in mat_arg
+        chk.instance(V9, f'join: JointNormalDistribution({unparse(c.args[0])}, .., {unparse(c.args[3])}) from ({", ".join(got)}): {ok}')
+        if not ok:
+            chk.violation(V9, rv.module.rel, jn.qualname, unparse(c)[:100],
+                          'the matrix rows follow the order of the collection, the names the order the caller listed them in: '
+                          'variances and covariances land on the wrong variables', line=c.lineno,
+                          witness="join(['ETA4', 'ETA1']): the variance of ETA1 becomes that of ETA4")
